@@ -40,7 +40,7 @@ type Options struct {
 }
 
 func DefaultOptions() Options {
-	return Options{MaxInstr: 3000000, MaxDepth: 400, MaxAlloc: 1 << 22, MaxConcretize: 64, MaxPaths: 2000000, TimeoutMS: 60000, Solver: "z3-new"}
+	return Options{MaxInstr: 3000000, MaxDepth: 400, MaxAlloc: 1 << 22, MaxConcretize: 128, MaxPaths: 2000000, TimeoutMS: 60000, Solver: "z3-new"}
 }
 
 // ---- control signals (Go panics used inside the interpreter) ----
@@ -105,6 +105,7 @@ type Result struct {
 	Decisions     int            `json:"decisions"`
 	InitNotes     []string       `json:"init_notes,omitempty"`
 	Truncated     string         `json:"truncated,omitempty"`
+	SymbolicOnly  bool           `json:"symbolic_only,omitempty"` // harness declared that it cannot be replayed natively
 	BatchedQueries int           `json:"batched_assert_queries"`
 	Summaries     int            `json:"summarised_calls"`
 	DecisionSites map[string]int `json:"decision_sites,omitempty"`
@@ -196,6 +197,7 @@ type Interp struct {
 	ovCache   map[*ssa.Function]*ssa.Function
 	pending   []pendingAssert
 	envSeq    int
+	fsyncCalls int
 	merge     *mergeState
 	ub, lb    map[int]uint64 // learned unsigned bounds per term id (this path)
 	StatRangeHits int
@@ -379,6 +381,7 @@ func (in *Interp) resetPath() {
 	in.pending = nil
 	in.ub, in.lb = nil, nil
 	in.envSeq = 0
+	in.fsyncCalls = 0
 }
 
 // evalModel evaluates a term under the cached model; ok=false if it cannot (no model, uninterpreted function).
@@ -457,7 +460,9 @@ func (in *Interp) fetchModel() map[string]uint64 {
 	}
 	var ts []*sym.Term
 	for _, ir := range in.inputs {
-		ts = append(ts, ir.t)
+		if !ir.t.IsConst() {
+			ts = append(ts, ir.t)
+		}
 	}
 	ts = append(ts, in.auxVars...)
 	vals, err := in.sol.Values(ts)
@@ -863,7 +868,9 @@ func (in *Interp) modelInputs() []InputVal {
 	}
 	var ts []*sym.Term
 	for _, ir := range in.inputs {
-		ts = append(ts, ir.t)
+		if !ir.t.IsConst() {
+			ts = append(ts, ir.t)
+		}
 	}
 	vals, err := in.sol.Values(ts)
 	if err != nil {
@@ -871,7 +878,11 @@ func (in *Interp) modelInputs() []InputVal {
 		return nil
 	}
 	for _, ir := range in.inputs {
-		out = append(out, InputVal{Name: ir.name, Kind: ir.kind, Width: ir.t.S.W, Val: vals[ir.t.ID]})
+		v := ir.t.C
+		if !ir.t.IsConst() {
+			v = vals[ir.t.ID]
+		}
+		out = append(out, InputVal{Name: ir.name, Kind: ir.kind, Width: ir.t.S.W, Val: v})
 	}
 	return out
 }
